@@ -5,6 +5,8 @@ CONSTANTS
   PT0MC <- PT3
   PPagesMC <- PP4
   MaxReq = 2
+  MaxHost = 0
+  ReleaseSrcEarly = FALSE
   ReplySlot = "hold"
-INVARIANTS NoReplyDropped ContentsPreserved TableMapsToDestination NoAlias Allocated OthersUnchanged CopyOnlyWhenQuiet OnePageAtATime HandshakeOrder ReplyOnce ReplyNotDropped AllServed
+INVARIANTS NoReplyDropped ContentsPreserved TableMapsToDestination NoAlias HeldApart OthersUnchanged CopyOnlyWhenQuiet OnePageAtATime HandshakeOrder ReplyOnce ReplyNotDropped AllServed
 CHECK_DEADLOCK FALSE
